@@ -130,8 +130,9 @@ def r4(c):
     arms = [(e, v) for e, v, info in f.variant_edges('rodbus::client::message::Command')]
     req_e = [e for e, v in arms if v == 'Request']
     c.ob('fail_next_request/request-arm', q.dominated_by_any(f, req_e, fl2.node) and not f.in_cycle(fl2.node), 'only on the Command::Request arm, once', '', fl2.loc())
-    s = q.sem(f, fl2.args[0])
-    c.ob('fail_next_request/that-request', ':Request' in ''.join(s.proj) or 'req' in q.chain_names(f, fl2.args[0]), 'the request failed is the one just dequeued', repr(s), fl2.loc())
+    s = q.initial_value(f, q.sem(f, fl2.args[0]))
+    rcv = f.calls('rodbus::channel::Receiver::recv')
+    c.ob('fail_next_request/that-request', s.kind == 'call' and len(rcv) == 1 and s.cs is rcv[0] and ':Request' in ''.join(s.proj), 'the request failed is the one just dequeued (the payload of the Command::Request received)', repr(s), fl2.loc())
 
 
 @rule('C10', 'R10.5', 'error kinds: NoConnection / Shutdown / ResponseTimeout / Io come from their one cause')
